@@ -52,8 +52,9 @@ def guard_atoms(g):
 class Index:
     """Derived, shared view of a spec."""
 
-    def __init__(self, spec):
+    def __init__(self, spec, family=None):
         self.spec = spec
+        self.family = family      # 'back' / 'back11' / 'backmp11' (None: backmp11 order) - state numbering differs
         self.machines = {}       # name -> machine
         self.parent = {}         # machine name -> (parent machine name, state name) | None
         self.depth = {}
@@ -76,8 +77,12 @@ class Index:
                 self._walk(s['machine'], (m['name'], sname), depth + 1)
         self.order.append(m)
 
-    # ---- documented state numbering: sources top-down, then targets, then remaining
-    #      initial states, then explicitly created states
+    # ---- state numbering.
+    # back / back11 (doc/internals.adoc "Generated state ids"): the Start column top-down, then the implicitly
+    # created states - transition-less initial states, explicit_creation - "added as a source at the end of the
+    # transition table", then submachine states that are not sources yet, then the Next column top-down.
+    # backmp11 (detail/metafunctions.hpp generate_state_set): sources, then targets, then remaining initial
+    # states, then explicitly created states - the order the C03 statement spells out.
     def state_ids(self, m):
         ids = []
 
@@ -86,6 +91,22 @@ class Index:
                 ids.append(n)
         for r in m['table']:
             add(self.row_src_state(r))
+        if self.family in ('back', 'back11'):
+            appear = set()
+            for r in m['table']:
+                appear.add(self.row_src_state(r))
+                if r['tgt'] is not None:
+                    appear.add(self.row_tgt_state(r))
+            for n in m['regions']:
+                if n not in appear:          # transition-less initial state: fake row appended to the table
+                    add(n)
+            for n in self.explicit_creation(m):
+                add(n)
+            for r in m['table']:
+                add(self.row_tgt_state(r))
+            for n in m['states']:
+                add(n)
+            return {n: i for i, n in enumerate(ids)}
         for r in m['table']:
             add(self.row_tgt_state(r))
         for n in m['regions']:
